@@ -3268,7 +3268,11 @@ class UTPM(Ring, RawAlgorithmsMixIn):
         D,P = a.data.shape[:2]
 
         if out is None:
-            r = cls(numpy.zeros(a.data.shape, dtype=complex))
+            shp = list(a.data.shape)
+            if n is not None:
+                # numpy.fft pads with zeros or truncates along axis
+                shp[2 + axis % (len(shp) - 2)] = n
+            r = cls(numpy.zeros(shp, dtype=complex))
 
         else:
             r, = out
@@ -3293,7 +3297,12 @@ class UTPM(Ring, RawAlgorithmsMixIn):
             for p in range(P):
 
                 # abar.data[d,p, ...] += numpy.fft.fft(bbar.data[d,p], n=n, axis=axis)
-                numpy.add(abar.data[d,p, ...], numpy.fft.fft(bbar.data[d,p], n=n, axis=axis), out=abar.data[d,p, ...], casting="unsafe")
+                tmp = numpy.fft.fft(bbar.data[d,p], axis=axis)
+                # the forward transform padded or truncated a along axis (n): keep the entries a has
+                sl = [slice(None)] * tmp.ndim
+                sl[axis] = slice(0, min(tmp.shape[axis], abar.data[d,p].shape[axis]))
+                sl = tuple(sl)
+                numpy.add(abar.data[d,p][sl], tmp[sl], out=abar.data[d,p][sl], casting="unsafe")
 
         return abar
 
@@ -3303,7 +3312,11 @@ class UTPM(Ring, RawAlgorithmsMixIn):
         D,P = a.data.shape[:2]
 
         if out is None:
-            r = cls(numpy.zeros(a.data.shape, dtype=complex))
+            shp = list(a.data.shape)
+            if n is not None:
+                # numpy.fft pads with zeros or truncates along axis
+                shp[2 + axis % (len(shp) - 2)] = n
+            r = cls(numpy.zeros(shp, dtype=complex))
 
         else:
             r, = out
@@ -3326,7 +3339,12 @@ class UTPM(Ring, RawAlgorithmsMixIn):
 
         for d in range(D):
             for p in range(P):
-                numpy.add(abar.data[d,p, ...], numpy.fft.ifft(bbar.data[d,p], n=n, axis=axis), out=abar.data[d,p, ...], casting="unsafe")
+                tmp = numpy.fft.ifft(bbar.data[d,p], axis=axis)
+                # the forward transform padded or truncated a along axis (n): keep the entries a has
+                sl = [slice(None)] * tmp.ndim
+                sl[axis] = slice(0, min(tmp.shape[axis], abar.data[d,p].shape[axis]))
+                sl = tuple(sl)
+                numpy.add(abar.data[d,p][sl], tmp[sl], out=abar.data[d,p][sl], casting="unsafe")
 
         return abar
 
